@@ -36,6 +36,8 @@ the same operations in the same order with the C++ integer semantics made explic
   sizeof(T)                   -> the entry "sizeof(T)" of the spec's `consts`
   const T x = e; / T{e}       -> declaration / conversion to T
   `T r = f(a, out);`          -> spec key `outcalls`: `let (r, out) := f a` for a translated f with reference outputs
+  spec key `recfuel` = n              -> a self-recursive constexpr function: `<lean>_fuel` recurses structurally on a fuel argument
+                                 (0 when the fuel runs out), `<lean>` starts it with fuel n; the equivalence proof shows n suffices
   spec keys `cut` ([(regex, replacement)], each must match exactly once) and `stop_before` (regex, must match; the body is
   translated up to that point and the `outs` are returned) remove the parts of a body that touch memory / the memory
   manager; the translation fails (function reported `missing`) when a marker is not found.
@@ -46,6 +48,17 @@ the same operations in the same order with the C++ integer semantics made explic
   int - int (e.g. `--b` on a uint8_t b) -> exact in Lean `Int` (operands are non-negative); the only accepted use of the result is
                                  the conversion back to uintN_t: `Int.toNat (x % 2^N)` (value mod 2^N, as in C++)
   static const T x = e;       -> local constant: like `T x = e;`
+  (area Misc)
+  uint32_t (u32)              -> `unsigned int`, not promoted: an operation with a u32 operand (and no u64 one) has type u32;
+                                 + - * << are reduced mod 2^32 (`Seg.w32`), >> & | ^ / % cannot leave the range
+  -n on an `int`, int -> signed -> exact in Lean `Int` (type i32; operands are non-negative ints by construction)
+  [static const] T tab[N] = { n, … };  -> constant table as a total function `fun i => [n, …].getD i 0` (type "T[]": `tab[e]` is `(tab e)`;
+                                 reading outside the table is UB in C++ and excluded by the equivalence theorems)
+  return { a, b };            -> the components converted to the types listed in the spec's `ret` (a std::pair / struct result)
+  MOMO_STATIC_ASSERT(e);      -> dropped like MOMO_ASSERT (listed in the doc comment)
+  spec key `fragment` (regex with one group; must match exactly once inside the body found by `anchor`, which may be a whole
+  class): the def translates `wrap % group` (`wrap` defaults to "{ return %s; }") — one expression or statement group of a
+  function that is otherwise not a pure integer function; the free variables of the fragment are the def's parameters.
 
 Anything outside the subset makes the translation of that function fail; the failure is reported as
 `missing` (the obligation cannot be re-checked), exactly like a constant whose pattern is gone.
@@ -428,6 +441,8 @@ class Tr:
                 return "(-%s)" % t, "i32"                      # int8_t promoted to int: exact, cannot overflow
             if ty == "u64":
                 return "(Seg.sub64 0 %s)" % t, "u64"
+            if ty == "int":
+                return "(-(%s : Int))" % t, "i32"               # -n on a non-negative int: exact (area Misc)
             raise Unsupported("unary minus on %s" % ty)
         if k == "member":
             if not (e[1][0] == "call" and e[1][1] == "std::minmax" and len(e[1][2]) == 2 and e[2] in ("first", "second")):
@@ -476,10 +491,14 @@ class Tr:
                 a, b = self.as_num(a, aty), self.as_num(b, bty)
                 lop = {"==": "=", "!=": "≠", "<": "<", "<=": "≤", ">": ">", ">=": "≥"}[op]
                 return "(decide (%s %s %s))" % (a, lop, b), "bool"
-            ty = "u64" if "u64" in (aty, bty) else "int"      # usual arithmetic conversions (narrow unsigned -> int)
+            ty = "u64" if "u64" in (aty, bty) else "u32" if "u32" in (aty, bty) else "int"   # usual arithmetic conversions (narrow unsigned -> int)
             if op in ("<<", ">>"):
-                ty = "u64" if aty == "u64" else "int"          # the result has the promoted type of the LEFT operand
+                ty = aty if aty in ("u64", "u32") else "int"   # the result has the promoted type of the LEFT operand
             a, b = self.as_num(a, aty), self.as_num(b, bty)
+            if ty == "u32":                                       # uint32_t = unsigned int: not promoted, + - * << wrap mod 2^32 (area Misc)
+                f = {"+": "Seg.w32 (%s + %s)", "-": "Seg.w32 (%s + 4294967296 - %s)", "*": "Seg.w32 (%s * %s)", "<<": "Seg.w32 (%s <<< %s)",
+                     ">>": "%s >>> %s", "&": "%s &&& %s", "|": "%s ||| %s", "^": "%s ^^^ %s", "/": "%s / %s", "%": "%s %% %s"}[op]
+                return "(" + f % (a, b) + ")", ty
             if ty == "u64":
                 f = {"+": "Seg.add64 %s %s", "-": "Seg.sub64 %s %s", "*": "Seg.mul64 %s %s", "<<": "Seg.shl64 %s %s",
                      ">>": "%s >>> %s", "&": "%s &&& %s", "|": "%s ||| %s", "^": "%s ^^^ %s", "/": "%s / %s", "%": "%s %% %s"}[op]
@@ -504,6 +523,8 @@ class Tr:
             return a
         if "u64" in (a, b):
             return "u64"
+        if "u32" in (a, b) and a not in SIGNED and b not in SIGNED:
+            return "u32"
         if a in SIGNED or b in SIGNED:
             return "i64" if "i64" in (a, b) else "i32"
         return "int"
@@ -538,6 +559,8 @@ class Tr:
             if dst == "i8":
                 return "(Tr.wI8 (Int.ofNat %s))" % t
             if dst in ("i32", "i64") and src in BITS and BITS[src] < BITS_S[dst]:
+                return "(Int.ofNat %s)" % t
+            if dst in ("i32", "i64") and src == "int":           # a non-negative int (area Misc)
                 return "(Int.ofNat %s)" % t
             raise Unsupported("conversion %s -> %s" % (src, dst))
         t = self.as_num(t, src)
@@ -610,7 +633,13 @@ class Tr:
 
     def result(self, e):
         parts = []
-        if e is not None:
+        if e is not None and e[0] == "bracelist":                # `return { a, b };`: spec ret = list of the component types
+            if not isinstance(self.spec.get("ret"), (list, tuple)) or len(self.spec["ret"]) != len(e[1]):
+                raise Unsupported("braced return value")
+            for x, want in zip(e[1], self.spec["ret"]):
+                t, ty = self.ex(x)
+                parts.append(self.conv(t, ty, want))
+        elif e is not None:
             t, ty = self.ex(e)
             parts.append(self.conv(t, ty, self.spec["ret"]))
         elif self.spec.get("ret"):
@@ -635,6 +664,11 @@ class Tr:
             return self.seq(s[1] + rest, ind, tail)
         if k == "return":
             return self.result(s[1])
+        if k == "decltab":                                        # constant table: a total function (0 outside; reading outside is UB in C++)
+            if s[1] not in BITS or len(s[4]) != s[3] or any(v >= 2 ** BITS[s[1]] for v in s[4]):
+                raise Unsupported("table %s" % s[2])
+            self.types[s[2]] = s[1] + "[]"
+            return "let %s : Nat → Nat := fun i => ([%s] : List Nat).getD i 0\n%s%s" % (s[2], ", ".join(str(v) for v in s[4]), pad, self.seq(rest, ind, tail))
         if k == "decl":
             self.types[s[2]] = s[1]
             if s[3] is None:
@@ -736,6 +770,13 @@ class Tr:
         doc = "/-- translated from `%s` (%s)%s%s -/\n" % (self.spec["cxx"], self.spec["header"],
                                                          ("; " + self.spec["note"]) if self.spec.get("note") else "",
                                                          ("; dropped assertions: " + "; ".join(self.asserts)) if self.asserts else "")
+        if self.spec.get("recfuel"):                              # self-recursive function: recursion on a fuel argument
+            names = [n for n, _ in params]                       # (the spec's `calls` maps the own name to "<lean>_fuel fuel")
+            if any(t != "u64" for _, t in params) or self.spec["lean_type"] != "Nat":
+                raise Unsupported("recfuel needs size_t parameters and result")
+            return (doc[:-4] + "; recursion with fuel %d, 0 when it runs out (the equivalence proof shows it never does) -/\n" % self.spec["recfuel"]
+                    + "def %s_fuel : Nat → %sNat\n  | 0, %s => 0\n  | fuel+1, %s =>\n  %s\n\n" % (self.spec["lean"], "Nat → " * len(names), ", ".join("_" for _ in names), ", ".join(names), txt)
+                    + "def %s %s: Nat := %s_fuel %d %s\n" % (self.spec["lean"], "".join("(%s : Nat) " % n for n in names), self.spec["lean"], self.spec["recfuel"], " ".join(names)))
         return doc + sig + txt + "\n"
 
 
@@ -854,6 +895,11 @@ def translate_one(spec, text):
     body = find_body(text, spec["anchor"], spec.get("occurrence", 0))
     if body is None:
         raise Unsupported("function not found (anchor %r)" % spec["anchor"])
+    if spec.get("fragment"):                                     # one expression / statement group of a larger body (area Misc)
+        ms = list(re.finditer(spec["fragment"], body, flags=re.S))
+        if len(ms) != 1:
+            raise Unsupported("fragment %r found %d times" % (spec["fragment"], len(ms)))
+        body = spec.get("wrap", "{ return %s; }") % ms[0].group(1)
     for pat, repl in spec.get("pre", []):
         body = re.sub(pat, repl, body)
     for pat, repl in spec.get("cut", []):                        # checked rewrite: the marker must be there exactly once
